@@ -215,6 +215,15 @@ theorem rename_order (f0 : Font) (h0 : WF f0) (ops : List Op) (L : String) (old 
     simp [mem_addName, mem_removeName, hne] at hm'
   · simp only [step]; rw [h3]; exact mem_specRename_new _ hne b
 
+/-- "The old name must stay" is evaluated after the glyph left its old name in its own layer: it
+holds exactly when a layer OTHER than the one renamed in has a glyph called `old`. -/
+theorem renamed_old_stays_iff_elsewhere (f0 : Font) (h0 : WF f0) (ops : List Op) (L : String)
+    (old new : Name) (hg : HasGlyph (run f0 ops) L old) (hne : old ≠ new) :
+    Exists (step (run f0 ops) (.rename L old new)).1 old ↔ ExistsElsewhere (run f0 ops) L old := by
+  obtain ⟨l, hget, hm⟩ := hg
+  obtain ⟨_, h2, _⟩ := rename_spec (wf_run h0 ops) hget hm hne
+  simp only [step]; rw [exists_congr h2, exists_setLayer]; simp [mem_addName, mem_removeName, hne]
+
 /-- The position clause: when the old name is gone from every layer, was listed, and the new name
 was not listed, the new name stands at the index of the (first) old name, the length is unchanged
 and every other index holds what it held. -/
@@ -324,6 +333,14 @@ theorem rename_noop_or_rejected (f : Font) (L : String) (l : Layer) (old new : N
   constructor
   · intro h; simp [step, rename, hget, h]
   · intro h; simp [step, rename, hget, h]
+
+/-- Adding or deleting a layer never changes the order (the code does not consult it there). -/
+theorem layer_ops_keep_order (f : Font) (name : String) :
+    glyphOrder (step f (.newLayer name)).1 = glyphOrder f ∧
+    glyphOrder (step f (.delLayer name)).1 = glyphOrder f := by
+  constructor
+  · simp only [step, newLayer]; split <;> rfl
+  · simp only [step, delLayer]; split <;> rfl
 
 /-! ## 5. No new duplicates -/
 
